@@ -691,3 +691,28 @@ def m_super(ip, args, kw, st, node):
 class SuperProxy:
     def __init__(self, selfv, cls):
         self.selfv, self.cls = selfv, cls
+
+
+@model("chain")
+def m_chain(ip, args, kw, st, node):
+    items = []
+    for a in args:
+        if isinstance(a, (PyList, tuple)):
+            items += list(a.items if isinstance(a, PyList) else a)
+        else:
+            raise OutOfSubset("itertools.chain over a symbolic iterable", node)
+    return [(PyList(items), st)]
+
+
+@model("wraps")
+def m_wraps(ip, args, kw, st, node):
+    from .core import Closure
+    ident = ast_lambda_identity()
+    return [(ident, st)]
+
+
+def ast_lambda_identity():
+    import ast as _ast
+    from .core import Closure
+    lam = _ast.parse("lambda f: f", mode="eval").body
+    return Closure(lam, {}, None)
